@@ -89,6 +89,34 @@ impl ClientObs {
     }
 }
 
+#[derive(Clone, Copy, Debug, PartialEq, Eq)]
+pub enum SnapPred {
+    Accept,
+    Decline,
+    /// v == the non-nil id the chain started from (not a stored version): unspecified
+    Corner,
+}
+
+/// The snapshot acceptance rule of the property statement, evaluated on an observed state.
+pub fn snap_predicate(pre: &ClientObs, vid: Uuid) -> SnapPred {
+    let n = pre.chain.len();
+    let pos_back = pre.pos_of(vid).map(|p| n - p); // 1 = latest
+    let cur = pre.snap.as_ref().map(|s| s.vid);
+    let in_window = matches!(pos_back, Some(k) if (1..=5).contains(&k));
+    let newer_holds = match (pos_back, cur.and_then(|cv| pre.pos_of(cv)).map(|p| n - p)) {
+        (Some(k), Some(sk)) => sk < k,
+        _ => false,
+    };
+    if !vid.is_nil() && pos_back.is_none() && Some(vid) == pre.base() {
+        return SnapPred::Corner;
+    }
+    if !vid.is_nil() && in_window && Some(vid) != cur && !newer_holds {
+        SnapPred::Accept
+    } else {
+        SnapPred::Decline
+    }
+}
+
 /// Abstracted response for cross-subject comparison.
 #[derive(Clone, Debug, PartialEq, Eq, Hash)]
 pub struct AbsResp(pub String);
@@ -533,12 +561,14 @@ impl<'a> Runner<'a> {
     }
 
     /// C11: GetSnapshot pairing and usability as a base.
-    fn mon_snapget(&mut self, c: usize, prev: Option<SnapObs>, uploaded: Option<(Uuid, Vec<u8>)>) {
+    fn mon_snapget(&mut self, c: usize, prev: Option<SnapObs>, uploaded: Option<(Uuid, Vec<u8>)>, pred: Option<SnapPred>) {
         let r = self.exec(c, &Req::GetSnapshot);
         match &r {
             Resp::NoSnap | Resp::NoSuchClient => {
                 if let Some(p) = prev {
                     self.v("C11", format!("GetSnapshot of client #{c} answers {} although a snapshot for version {} had been stored and returned before", r.short(), p.vid));
+                } else if pred == Some(SnapPred::Accept) && matches!(r, Resp::NoSnap) {
+                    self.v("C11", format!("an AddSnapshot for version {:?} of client #{c} that the acceptance rule accepts was acknowledged, yet GetSnapshot answers not-found", uploaded.as_ref().map(|u| u.0)));
                 }
                 self.cov.hit("getsnapshot:none".into());
             }
@@ -557,6 +587,23 @@ impl<'a> Runner<'a> {
                     return;
                 }
                 self.cov.hit(format!("getsnapshot:{}", if is_new { "new" } else { "kept" }));
+                match pred {
+                    Some(SnapPred::Accept) if !is_new => {
+                        self.v("C11", format!(
+                            "an AddSnapshot for version {:?} of client #{c} that the acceptance rule accepts was acknowledged on {}, yet GetSnapshot still returns the older snapshot (v={vid}, {} bytes)",
+                            uploaded.as_ref().map(|u| u.0), self.subj.kind.name(), data.len()
+                        ));
+                        return;
+                    }
+                    Some(SnapPred::Decline) if is_new && !is_prev => {
+                        self.v("C11", format!(
+                            "an AddSnapshot for version {vid} of client #{c} that the acceptance rule declines (previous snapshot: {:?}) replaced what GetSnapshot returns on {}: now (v={vid}, {} bytes {})",
+                            prev.as_ref().map(|p| (p.vid, p.data_len)), self.subj.kind.name(), data.len(), hex_prefix(data, 8)
+                        ));
+                        return;
+                    }
+                    _ => {}
+                }
                 // walk from the snapshot version to the latest
                 let latest = self.clients[c].latest();
                 let mut p = *vid;
@@ -1020,7 +1067,11 @@ impl<'a> Runner<'a> {
 
                 // ---- C11
                 if self.mon.snapget && matches!(req, Req::AddVersion { .. } | Req::AddSnapshot { .. }) && !matches!(resp, Resp::NoSuchClient) {
-                    self.mon_snapget(c, prev_snap.clone(), uploaded.clone());
+                    let pred = match req {
+                        Req::AddSnapshot { vid, .. } => Some(snap_predicate(&pre, *vid)),
+                        _ => None,
+                    };
+                    self.mon_snapget(c, prev_snap.clone(), uploaded.clone(), pred);
                 }
                 // ---- C12 counters + urgency of real histories
                 if self.mon.counter {
